@@ -367,8 +367,15 @@ type c20LC struct {
 	extra    map[int64]*types.LightBlock // overrides (paging cases)
 	trusted  map[int64]bool              // heights TrustedLightBlock knows
 	updateOK bool
-	calls    []string
+	// Update returns (nil, nil): neither an error nor a block, as light.Client.Update does when the
+	// primary has nothing newer than the latest trusted light block (F80)
+	updateNone bool
+	calls      []string
 }
+
+// The cases in which the stub's Update has no newer block make the unrepaired client panic; they are
+// generated only with VERIF_C20_F80=1 until repair F80 (fixes/F80-*.diff) is in the tree.
+func c20F80() bool { return true } // regression cases of finding F80 (repaired in /repo)
 
 func (l *c20LC) ChainID() string { return l.c.chainID }
 func (l *c20LC) get(h int64) (*types.LightBlock, error) {
@@ -382,6 +389,9 @@ func (l *c20LC) get(h int64) (*types.LightBlock, error) {
 }
 func (l *c20LC) Update(ctx context.Context, now time.Time) (*types.LightBlock, error) {
 	l.calls = append(l.calls, vg.Tup(vg.N(2), vg.Z(0)))
+	if l.updateNone {
+		return nil, nil
+	}
 	if !l.updateOK {
 		return nil, errors.New("update failed")
 	}
@@ -393,6 +403,16 @@ func (l *c20LC) VerifyLightBlockAtHeight(ctx context.Context, h int64, now time.
 }
 func (l *c20LC) TrustedLightBlock(h int64) (*types.LightBlock, error) {
 	l.calls = append(l.calls, vg.Tup(vg.N(1), vg.Z(h)))
+	if h == 0 { // light.Client.TrustedLightBlock(0): the latest trusted light block
+		for t, ok := range l.trusted {
+			if ok && t > h {
+				h = t
+			}
+		}
+		if h == 0 {
+			return nil, errors.New("no headers exist")
+		}
+	}
 	if !l.trusted[h] {
 		return nil, fmt.Errorf("light block %d not in the trusted store", h)
 	}
@@ -455,6 +475,9 @@ func (l *c20LC) term(withVals bool) string {
 	latest := int64(0)
 	if l.updateOK {
 		latest = l.c.n
+	}
+	if l.updateNone {
+		latest = -1
 	}
 	return vg.Tup(vg.L(tab), vg.ZL(tr), vg.Z(latest))
 }
@@ -921,11 +944,37 @@ func c20OptInt(p *int) string {
 	return vg.Opt(true, vg.Z(int64(*p)))
 }
 
+// the trusted store holds exactly the heights 1..top
+func c20TrustUpTo(l *c20LC, top int64) {
+	for h := range l.trusted {
+		l.trusted[h] = h <= top
+	}
+}
+
+func (l *c20LC) updateDescr() string {
+	switch {
+	case l.updateNone:
+		top := int64(0)
+		for h, ok := range l.trusted {
+			if ok && h > top {
+				top = h
+			}
+		}
+		return fmt.Sprintf("Update returns (nil, nil) - nothing newer than the latest trusted light block, height %d (0: empty store)", top)
+	case l.updateOK:
+		return "Update returns the latest light block"
+	}
+	return "Update fails"
+}
+
 func c20CommitCases(t *testing.T, cs *vg.Cases, c *c20Chain, r *vg.Rand) {
 	hs := []*int64{nil, new(int64), new(int64), new(int64), nil}
 	*hs[1] = 1 + r.Int63n(c.n)
 	*hs[2] = c.n + 1
 	*hs[3] = 0
+	if c20F80() { // k = 5, 6, 7: Update has no newer block (latest trusted = n; = some lower height; none at all)
+		hs = append(hs, nil, nil, nil)
+	}
 	for k, hp := range hs {
 		id := cs.NextID()
 		if !cs.Want(id) {
@@ -934,6 +983,10 @@ func c20CommitCases(t *testing.T, cs *vg.Cases, c *c20Chain, r *vg.Rand) {
 		lc := c20NewLC(c)
 		if k == 4 {
 			lc.updateOK = false
+		}
+		if k >= 5 {
+			lc.updateNone = true
+			c20TrustUpTo(lc, []int64{c.n, 1 + r.Fork(uint64(k)).Int63n(c.n), 0}[k-5])
 		}
 		cl := c20Client(&c20Server{}, lc, true)
 		var out *ctypes.ResultCommit
@@ -948,7 +1001,7 @@ func c20CommitCases(t *testing.T, cs *vg.Cases, c *c20Chain, r *vg.Rand) {
 		}
 		cs.Add(id, "commit", true,
 			vg.App("CCommit", lc.term(false), c20OptZ(hp), vg.B(run.relayed), vg.Tup(vg.Hx(oh), vg.Hx(oc)), vg.B(canon), vg.L(run.calls)),
-			fmt.Sprintf("chain#%d(n=%d) Commit(%s) updateOK=%v; ok=%v err=%q", c.idx, c.n, c20OptZ(hp), lc.updateOK, run.relayed, run.err))
+			fmt.Sprintf("chain#%d(n=%d) Commit(%s) light client: %s; ok=%v err=%q", c.idx, c.n, c20OptZ(hp), lc.updateDescr(), run.relayed, run.err))
 	}
 }
 
@@ -978,13 +1031,21 @@ func c20ValsCases(t *testing.T, cs *vg.Cases, c *c20Chain, r *vg.Rand, big bool)
 			req{zp(1 + r.Int63n(c.n)), ip(1 + r.Intn(3)), ip(1), -1, true}, req{zp(c.n + 1), nil, nil, -1, true},
 			req{nil, ip(1), ip(2), -1, false})
 	}
-	for _, q := range reqs {
+	nUpd := len(reqs)
+	if !big && c20F80() { // Update has no newer block: latest trusted = n / a lower height / empty store
+		reqs = append(reqs, req{nil, nil, nil, -1, true}, req{nil, ip(1), ip(1 + r.Intn(3)), -1, true}, req{nil, nil, nil, -1, true})
+	}
+	for qi, q := range reqs {
 		id := cs.NextID()
 		if !cs.Want(id) {
 			continue
 		}
 		lc := c20NewLC(c)
 		lc.updateOK = q.updateOK
+		if qi >= nUpd {
+			lc.updateNone = true
+			c20TrustUpTo(lc, []int64{c.n, 1 + r.Fork(uint64(qi)).Int63n(c.n), 0}[qi-nUpd])
+		}
 		if q.nv >= 0 { // a light block with a validator set of the wanted size at a height of its own
 			var vs []*types.Validator
 			for i := 0; i < q.nv; i++ {
@@ -1014,8 +1075,8 @@ func c20ValsCases(t *testing.T, cs *vg.Cases, c *c20Chain, r *vg.Rand, big bool)
 		}
 		cs.Add(id, "validators", true,
 			vg.App("CVals", lc.term(true), c20OptZ(q.h), c20OptInt(q.pg), c20OptInt(q.pp), vg.B(run.relayed), outT, vg.L(run.calls)),
-			fmt.Sprintf("chain#%d(n=%d) Validators(height %s, page %s, perPage %s) on a set of %d validators (-1: the chain's); ok=%v err=%q",
-				c.idx, c.n, c20OptZ(q.h), c20OptInt(q.pg), c20OptInt(q.pp), q.nv, run.relayed, run.err))
+			fmt.Sprintf("chain#%d(n=%d) Validators(height %s, page %s, perPage %s) on a set of %d validators (-1: the chain's), light client: %s; ok=%v err=%q",
+				c.idx, c.n, c20OptZ(q.h), c20OptInt(q.pg), c20OptInt(q.pp), q.nv, lc.updateDescr(), run.relayed, run.err))
 	}
 }
 
@@ -1035,7 +1096,8 @@ var c20TxKinds = []string{"honest", "honest", "honest-noprove", "forged-noprove"
 	"aunt-forged", "aunt-dropped", "proof-index", "proof-total", "last-leaf-relabelled", "height-zero", "height-beyond",
 	"foreign-block-proof", "whole-answer-other-tx", "index-relabelled", "index-relabelled",
 	"index-wide-2^32", "index-wide-2^32-exact", "index-wide-2^32-true-index", "index-wide-2^31", "index-wide-2^33", "index-wide-2^40", "index-wide-2^62",
-	"index-plus-2^32-same-total", "index-total-max-int64", "index-negative"}
+	"index-plus-2^32-same-total", "index-total-max-int64", "index-negative",
+	"index-equals-total", "index-equals-total-plus-1", "total-plus-2^32", "total-plus-3*2^32", "total-minus-2^32", "index-and-total-plus-2^32"}
 
 // Known finding F41.  An RFC-6962 inclusion proof fixes only the left/right shape of the path,
 // and the same shape occurs under other (index, total) pairs: every relabelling of the genuine
@@ -1073,16 +1135,20 @@ func c20WideRelabelling(txs types.Txs, i int, k uint) (merkle.Proof, bool) {
 	}
 	p := txs.Proof(i)
 	q := merkle.Proof{Total: int64(1)<<k + (n - s), Index: int64(1)<<k + (int64(i) - s), LeafHash: p.Proof.LeafHash, Aunts: p.Proof.Aunts}
-	return q, q.Verify(p.RootHash, txs[i].Hash()) == nil
+	ok := false
+	func() {
+		defer func() { recover() }()
+		ok = q.Verify(p.RootHash, txs[i].Hash()) == nil
+	}()
+	return q, ok
 }
 
 // the answer for transaction i (right half) of block h behind such a proof; Index = the low 32 bits of the proof's index
 func (c *c20Chain) wideTx(h int64, i int, k uint) *ctypes.ResultTx {
 	res := c20Wire(c.honestTx(h, i))
-	q, ok := c20WideRelabelling(c.blocks[h-1].Data.Txs, i, k)
-	if !ok {
-		panic(fmt.Sprintf("c20: no wide relabelling for tx %d of block %d (2^%d)", i, h, k))
-	}
+	// whether or not the relabelled proof verifies under the tree code in the tree (it does under the correct
+	// one): the answer is offered, the client must refuse it
+	q, _ := c20WideRelabelling(c.blocks[h-1].Data.Txs, i, k)
 	res.Proof.Proof = q
 	res.Index = uint32(q.Index)
 	return res
@@ -1172,6 +1238,22 @@ func c20TxCases(t *testing.T, cs *vg.Cases, c *c20Chain, r *vg.Rand) {
 			res.Index = uint32(res.Proof.Proof.Index & 0xffffffff)
 		case "index-negative": // a negative proof index whose low 32 bits are the true position
 			res.Proof.Proof.Index = int64(i) - 1<<32
+		case "index-equals-total", "index-equals-total-plus-1": // the last leaf's genuine aunts under Index = Total (+1): one past the end
+			res = c20Wire(c.honestTx(h, len(txs)-1))
+			res.Proof.Proof.Index = res.Proof.Proof.Total
+			if kind == "index-equals-total-plus-1" {
+				res.Proof.Proof.Index++
+			}
+			res.Index = uint32(res.Proof.Proof.Index)
+		case "total-plus-2^32": // the true index under a total that differs by a multiple of 2^32
+			res.Proof.Proof.Total += 1 << 32
+		case "total-plus-3*2^32":
+			res.Proof.Proof.Total += 3 << 32
+		case "total-minus-2^32":
+			res.Proof.Proof.Total -= 1 << 32
+		case "index-and-total-plus-2^32":
+			res.Proof.Proof.Total += 1 << 32
+			res.Proof.Proof.Index += 1 << 32
 		case "index-relabelled":
 			res, _ = c.relabelledTx(h, i, rr)
 		case "honest-noprove":
@@ -1276,7 +1358,7 @@ func c20TxCases(t *testing.T, cs *vg.Cases, c *c20Chain, r *vg.Rand) {
 var c20SearchKinds = []string{"honest", "honest-one-block", "honest-empty", "honest-noprove", "forged-noprove", "body-forged",
 	"body-and-hash-forged", "hash-forged", "index-forged", "proof-of-other-tx", "height-forged", "height-zero", "height-beyond",
 	"aunt-forged", "data-forged", "nil-entry", "last-forged", "result-forged", "total-count-forged", "result-dropped",
-	"results-reordered", "index-relabelled", "index-wide-2^32", "index-wide-2^31", "index-wide-2^40"}
+	"results-reordered", "index-relabelled", "index-wide-2^32", "index-wide-2^31", "index-wide-2^40", "index-equals-total", "total-plus-2^32"}
 
 func c20SearchCases(t *testing.T, cs *vg.Cases, c *c20Chain, r *vg.Rand) {
 	var withTxs []int64
@@ -1382,6 +1464,16 @@ func c20SearchCases(t *testing.T, cs *vg.Cases, c *c20Chain, r *vg.Rand) {
 					break
 				}
 			}
+		case "index-equals-total": // the last transaction of block 2 under Index = Total = the number of leaves
+			for j, w := range where {
+				if w.h == 2 && w.i == len(c.blocks[1].Data.Txs)-1 {
+					res.Txs[j].Proof.Proof.Index = res.Txs[j].Proof.Proof.Total
+					res.Txs[j].Index = uint32(res.Txs[j].Proof.Proof.Total)
+					pick = j
+				}
+			}
+		case "total-plus-2^32":
+			m.Proof.Proof.Total += 1 << 32
 		case "index-relabelled": // known finding F41, through TxSearch
 			for j, w := range where {
 				if x, ok := c.relabelledTx(w.h, w.i, rr); ok {
